@@ -14,7 +14,7 @@ WRAPPERS = {
     "binary-left": lambda e: f"({e} + 0)",
     "conditional": lambda e: f"(if true then {e} else 0)",
     "list-index": lambda e: f"[{e}][0]",
-    "record-field": lambda e: f"{{a: {e}}}.a",
+    "record-field": lambda e: f"{{kk: {e}}}.kk",
     "do-block": lambda e: f"do {{\n return {e}\n}}",
     "unary": lambda e: f"(-(-{e}))",
     "identity-lambda": lambda e: f"(x => x)({e})",
@@ -27,6 +27,21 @@ def wrap(kind, k, e):
     for _ in range(k):
         e = WRAPPERS[kind](e)
     return e
+
+
+NAME_LENGTHS = [1, 13, 40, 100]
+
+
+def rename(src, name_len):
+    """the same program with its function names f / a / b / c made `name_len` characters long (error messages name every
+    frame, so their length grows with the names)"""
+    if name_len <= 1:
+        return src
+    import re
+    for short in ("f", "a", "b", "c"):
+        long = (short + "_recursive_function_name_" + short * name_len)[:name_len]
+        src = re.sub(rf"\b{short}\b", long, src)
+    return src
 
 
 def program(entry, wrapper, k, bound):
@@ -100,27 +115,34 @@ def offline(ctx, res):
                 if e in non_numeric and w not in agnostic:
                     w = agnostic[i % len(agnostic)]
                 i += 1
-                cases.append((e, w, k, None))
+                nl = NAME_LENGTHS[i % len(NAME_LENGTHS)]
+                cases.append((e, w, k, None, nl))
                 L = 100 if e in CALLBACK else [100, 300, 500][i % 3]
-                cases.append((e, w, k, L))
+                cases.append((e, w, k, L, NAME_LENGTHS[(i + 1) % len(NAME_LENGTHS)]))
     else:
         for e in DIRECT + CALLBACK:
             for w in WRAPPERS:
                 if e in non_numeric and w not in agnostic:
                     continue
                 for k in ks:
-                    cases.append((e, w, k, None))
+                    cases.append((e, w, k, None, NAME_LENGTHS[(len(cases) + k) % len(NAME_LENGTHS)]))
                     for L in ([100, 150] if e in CALLBACK else [100, 300, 500]):
-                        cases.append((e, w, k, L))
+                        cases.append((e, w, k, L, 1))
+            # every name length for every entry shape
+            for nl in NAME_LENGTHS[1:]:
+                w = "conditional"
+                cases.append((e, w, 1, None, nl))
+                cases.append((e, w, 1, 100, nl))
 
     def one(item):
-        idx, (entry, wrapper, k, L) = item
+        idx, (entry, wrapper, k, L, name_len) = item
         src, exp, per = program(entry, wrapper, k, L)
+        src = rename(src, name_len)
         path = os.path.join(tmpdir, f"r{idx}.blots")
         with open(path, "w") as f:
             f.write(src)
         rr = common.run_cli([path], timeout=120)
-        desc = {"entry": entry, "wrapper": wrapper, "k": k, "bound": L, "source": src if len(src) < 1500 else src[:1500] + "...", "exit": rr["rc"],
+        desc = {"entry": entry, "wrapper": wrapper, "k": k, "bound": L, "function_name_length": name_len, "source": src if len(src) < 1500 else src[:1500] + "...", "exit": rr["rc"],
                 "stdout": rr["out"][-300:].decode("utf-8", "replace"), "stderr": rr["err"][-300:].decode("utf-8", "replace")}
         text = (rr["out"] + rr["err"]).decode("utf-8", "replace")
         kcls = "k<4" if k < 4 else "k>=4"
